@@ -304,6 +304,15 @@ TelnetPlainTextMessageIOGateway :: ~TelnetPlainTextMessageIOGateway()
 
 void
 TelnetPlainTextMessageIOGateway ::
+Reset()
+{
+   PlainTextMessageIOGateway::Reset();
+   _inSubnegotiation = false;
+   _commandBytesLeft = 0;
+}
+
+void
+TelnetPlainTextMessageIOGateway ::
 FilterInputBuffer(char * buf, uint32 & bufLen, uint32 /*maxLen*/)
 {
    // Based on the document at http://support.microsoft.com/kb/231866
